@@ -315,6 +315,25 @@ func runC19(rep *Report, tier string, seed int64, replay string) {
 		}
 	}
 	flush()
+	// stress without the scheduler, in a child process
+	rounds := 3000
+	if tier == "thorough" {
+		rounds = 60000
+	}
+	if out, _, code := runSelf("-sub", "c19stress", fmt.Sprint(rounds)); true {
+		n := 0
+		for _, l := range strings.Split(out, "\n") {
+			if strings.HasPrefix(l, "BAD ") {
+				rep.addViolation("property", "C19:stress:"+l[strings.LastIndex(l, ": ")+2:], l[4:], map[string]any{"cmd": fmt.Sprintf("bin/harness -sub c19stress %d", rounds)})
+			}
+			fmt.Sscanf(l, "DONE rounds=%d", &n)
+		}
+		rep.Evaluations += n
+		rep.Extra["stress_rounds"] = n
+		if code != 0 || n == 0 {
+			rep.addViolation("property", "C19:stress:crash", "the stress child died (unrecovered panic or deadlock)", map[string]any{"cmd": fmt.Sprintf("bin/harness -sub c19stress %d", rounds)})
+		}
+	}
 	rep.Exhaustive = false
 	rep.Extra["schedules_exhaustive_per_scenario"] = exhaustive
 	rep.Extra["scenarios"] = len(jobs)
